@@ -4,8 +4,15 @@
    and the removal of vertex-coincident triangles) against whole renders of lattice-lookup fields
    by the real uniform / octree / quadtree renderers. *)
 From Coq Require Import List ZArith NArith Floats Bool.
-From Sdfx Require Import Num.Ops Num.FInst Geo.Vec Generated.MarchTables
-  Render.Balance Render.MC Render.MS Render.Lattice Render.Interp.
+From Sdfx Require Import Num.Ops.
+From Sdfx Require Import Num.FInst.
+From Sdfx Require Import Geo.Vec.
+From Sdfx Require Import Generated.MarchTables.
+From Sdfx Require Import Render.Balance.
+From Sdfx Require Import Render.MC.
+From Sdfx Require Import Render.MS.
+From Sdfx Require Import Render.Lattice.
+From Sdfx Require Import Render.Interp.
 Import ListNotations.
 
 Definition f3 := (float * float * float)%type.
